@@ -155,8 +155,8 @@ theorem arrays_exact {mode : Layout} {stmts : List Stmt} {spec : Spec}
     {s : Seeds} {c : Cons} (hs : seeds mode spec = .ok s) (hb : build s = .ok c)
     {a : Arrays} (ha : getConstraints mode spec = .ok a) :
     a.2.1.length = a.1.length ∧ a.2.2.length = a.1.length ∧
-    (∀ i, a.2.2[i]? = some none → a.1[i]? = some none ∧ a.2.1[i]? = some none) ∧
-    ∀ i ch, a.2.2[i]? = some (some ch) →
+    (∀ i : Nat, a.2.2[i]? = some none → a.1[i]? = some none ∧ a.2.1[i]? = some none) ∧
+    ∀ (i : Nat) (ch : Char), a.2.2[i]? = some (some ch) →
       ∃ m v w, denOf mode spec i = some m ∧ a.1[i]? = some v ∧ a.2.1[i]? = some w ∧
         SemMin mode spec a m false v ∧ SemMin mode spec a m true w ∧
         (∀ b, hasB (Generated.pilTable.maskC ch) b ↔
